@@ -1,7 +1,14 @@
 #!/usr/bin/env python3
 """Inventory of panic-capable constructs on the input path of the rsbdd tool (C12 source pin).
    usage: panic_sites.py scan            print the current inventory as JSON
-          panic_sites.py compare FILE    compare with a committed inventory; exit 1 + diff on mismatch"""
+          panic_sites.py compare FILE    compare with a committed inventory; exit 1 + diff on mismatch
+
+   What is pinned is the SHAPE of every construct, per file: its kind and the construct itself with the
+   identifiers blanked (`_[0]`, `_[1..]`, `_ - 1`, `.expect("message")`, `panic!("message"`), as a multiset.
+   Renaming a variable, moving a statement or re-wrapping a line keeps the shapes; a new unwrap, a new kind of
+   slice, another arithmetic on a length does not.  Index shapes: `_[0]` (constant), `_[_]` (expression),
+   `_[1.._]`, `_[_..]`, … (ranges).  A change of the exact text with unchanged shapes, and a construct that is gone,
+   are printed as a NOTE (exit 0): only a NEW shape breaks the pin."""
 import json, re, sys, os
 REPO = os.environ.get("VERIF_REPO") or "/repo"   # VERIF_REPO: development aid, see ./check
 FILES = ["src/parser.rs", "src/bdd.rs", "src/bin/rsbdd.rs", "src/truth_table.rs", "src/bdd_io.rs",
@@ -16,7 +23,7 @@ KINDS = [
     ("assert", re.compile(r"\bassert(_eq|_ne)?!\(")),
     ("index", re.compile(r"[A-Za-z_)\]]\[[^\]#]+\]")),
     ("cast", re.compile(r"\bas (i64|usize|u32|u64|i32)\b")),
-    ("arith", re.compile(r"[A-Za-z_)\]] [-+*] (1|[A-Za-z_(])")),
+    ("arith", re.compile(r"[a-z0-9_)\]] [-+*] (1|[a-z_(])")),
     ("borrow_mut", re.compile(r"\.borrow_mut\(\)|\.replace\(")),
 ]
 def strip_comments(line):
@@ -33,8 +40,14 @@ def scan():
     for f in FILES:
         p = os.path.join(REPO, f)
         if not os.path.exists(p): continue
-        for line in open(p, encoding="utf-8", errors="replace"):
+        lines = open(p, encoding="utf-8", errors="replace").read().split("\n")
+        for ln, line in enumerate(lines):
             code = strip_comments(line).strip()
+            # a macro call / expect whose message is on the following line(s): join them (line wrapping is not a change)
+            k = ln
+            while code.endswith("(") and re.search(r"(panic|unreachable|unimplemented|todo|assert(_eq|_ne)?)!\($|\.expect\($", code) and k + 1 < len(lines) and k < ln + 3:
+                k += 1
+                code = code + strip_comments(lines[k]).strip()
             if not code or code.startswith("#[") or code.startswith("use "): continue
             for kind, rx in KINDS:
                 if rx.search(code):
@@ -43,6 +56,36 @@ def scan():
                     sites.append({"file": f, "kind": kind, "code": re.sub(r"\s+", " ", code)})
     return sites
 def key(s): return (s["file"], s["kind"], s["code"])
+_STR = re.compile(r'"(?:[^"\\]|\\.)*"')
+def shape(s):
+    """the construct with identifiers blanked; string literals (messages) are kept"""
+    kind, code = s["kind"], s["code"]
+    rx = dict(KINDS)[kind]
+    m = rx.search(code)
+    frag = code[m.start():] if m else code
+    if kind in ("panic", "unreachable", "unimplemented", "assert", "expect", "unwrap_or_else_panic"):
+        lit = _STR.search(frag)
+        return kind + (":" + lit.group(0) if lit else "")
+    if kind == "index":
+        # the bracket expression, identifiers blanked
+        b = re.search(r"\[[^\]#]+\]", frag)
+        inner = (b.group(0) if b else frag)[1:-1].strip()
+        # constant index / constant range bound / general expression, and whether it is a range
+        def part(e):
+            e = e.strip()
+            return "" if e == "" else (e if re.fullmatch(r"[0-9]+", e) else "_")
+        if ".." in inner:
+            lo, hi = inner.split("..", 1)
+            return "_[%s..%s]" % (part(lo), part(hi.lstrip("=")))
+        return "_[%s]" % part(inner)
+    if kind == "arith":
+        m2 = re.search(r" ([-+*]) (1\b)?", frag)
+        return "_ %s %s" % (m2.group(1), "1" if m2 and m2.group(2) else "_") if m2 else "_ ? _"
+    if kind == "cast":
+        m2 = re.search(r"\bas (i64|usize|u32|u64|i32)\b", frag)
+        return "as " + m2.group(1)
+    return kind
+def skey(s): return (s["file"], s["kind"], shape(s))
 if __name__ == "__main__":
     if sys.argv[1] == "scan":
         json.dump(scan(), sys.stdout, indent=1)
@@ -52,8 +95,16 @@ if __name__ == "__main__":
         from collections import Counter
         cw, ch = Counter(key(s) for s in want), Counter(key(s) for s in have)
         added = list((ch - cw).elements()); removed = list((cw - ch).elements())
-        if added or removed:
-            for a in added: print("NEW panic-capable construct:", a)
-            for r in removed: print("GONE (inventory stale):", r)
+        sw, sh_ = Counter(skey(s) for s in want), Counter(skey(s) for s in have)
+        sadded = list((sh_ - sw).elements()); sremoved = list((sw - sh_).elements())
+        if sadded:
+            for a in sadded: print("NEW panic-capable construct (file, kind, shape):", a)
+            for r in sremoved: print("gone (file, kind, shape):", r)
+            for a in added: print("  new text:", a)
+            for r in removed: print("  old text:", r)
             sys.exit(1)
-        print(f"panic-site inventory matches ({len(have)} sites)")
+        if added or removed or sremoved:
+            print(f"NOTE: {len(added)} panic-capable line(s) changed their text, {len(sremoved)} construct(s) are gone; no new shape ({len(have)} sites)")
+            for a in added: print("  new text:", a)
+        else:
+            print(f"panic-site inventory matches ({len(have)} sites)")
